@@ -226,5 +226,7 @@ func matchSeriesKeyWithSetTag(tags influx.PointTags, vals map[interface{}]bool, 
 			return ok
 		}
 	}
-	return false
+	// an absent tag behaves as the empty string
+	_, ok := vals[""]
+	return ok
 }
